@@ -518,6 +518,11 @@ def nesting_case(ctx, leafloc, label, req, impl_vals, cases, exact):
         else:
             req.append(f"{op} {enc}")
         impl_vals.append(v); cases.append({**case, "op": op})
+    # native coordinates: the flag (keyword or positional) must reach every ancestor
+    gn = impl_vec(leafloc.getGlobalCoordinates, nativeCoords=True)
+    req.append("globalTN T " + " ".join(enc_loc(l, trz=True) for l in chain))
+    impl_vals.append(gn); cases.append({**case, "op": "global-native"})
+    native_oracle(ctx, case, leafloc, chain, has_trz, gc, gn)
     # oracle: global == local + every ancestor's coordinates
     tot = np.zeros(3)
     ok = True
@@ -605,6 +610,52 @@ def nesting_case(ctx, leafloc, label, req, impl_vals, cases, exact):
         if not isinstance(leafloc, grids.CoordinateLocation) and parent is not None and parent.grid is not None \
                 and leafloc.grid is not None:
             adding_truth_table(ctx, case, leafloc, parent, ci, own, exact)
+
+
+def native_oracle(ctx, case, leafloc, chain, has_trz, gc, gn):
+    """`nativeCoords`: global native coordinates are the sum of the NATIVE local coordinates of every level (a theta-R-Z
+    level contributes (theta, r, z)); every way of passing the flag agrees; without a theta-R-Z grid in the chain the
+    flag changes nothing."""
+    from armi.reactor import grids
+
+    for how, v in (("positional True", impl_vec(leafloc.getGlobalCoordinates, True)),
+                   ("nativeCoords=False", impl_vec(leafloc.getGlobalCoordinates, nativeCoords=False)),
+                   ("positional False", impl_vec(leafloc.getGlobalCoordinates, False))):
+        ref = gn if "True" in how else gc
+        if not same_vec(v, ref):
+            ctx.fail("native-flag-spelling", "getGlobalCoordinates gives one answer per flag value, however the flag is passed",
+                     {**case, "how": how}, observed=v, expected=ref)
+    tot, ok = np.zeros(3), True
+    for l in chain:
+        lc = impl_vec(l.getLocalCoordinates, nativeCoords=True)
+        lc2 = impl_vec(l.getLocalCoordinates, True)
+        if not same_vec(lc, lc2):
+            ctx.fail("native-flag-spelling", "getLocalCoordinates(True) == getLocalCoordinates(nativeCoords=True)",
+                     {**case, "level": repr(l)}, observed=lc2, expected=lc)
+        if isinstance(l.grid, grids.ThetaRZGrid) and not isinstance(l, grids.CoordinateLocation):
+            mesh = impl_vec(grids.StructuredGrid.getCoordinates, l.grid, l.indices)
+            viaGrid = impl_vec(l.grid.getCoordinates, l.indices, nativeCoords=True)
+            if mesh is not None and 0.0 <= mesh[0] <= TAU and (not same_vec(lc, mesh) or not same_vec(viaGrid, mesh)):
+                ctx.fail("native-local-is-mesh", "native local coordinates of a theta-R-Z cell are its (theta, r, z)",
+                         {**case, "level": repr(l)}, observed=[lc, viaGrid], expected=mesh)
+        else:
+            plain = impl_vec(l.getLocalCoordinates)
+            if not same_vec(lc, plain):
+                ctx.fail("native-flag-without-trz", "outside theta-R-Z grids the flag changes nothing (local coordinates)",
+                         {**case, "level": repr(l)}, observed=lc, expected=plain)
+        if lc is None:
+            ok = False
+            break
+        tot = tot + np.array(lc)
+    if ok and (gn is None or not close_vec(gn, list(tot), scale=float(np.abs(tot).max()))):
+        ctx.fail("nested-native-global-is-sum", "native global coordinates == sum of the NATIVE local coordinates along the whole "
+                 "parent chain (a theta-R-Z ancestor at any height contributes (theta, r, z))", case, observed=gn, expected=list(tot))
+    if not has_trz and not same_vec(gn, gc):
+        ctx.fail("native-flag-without-trz", "hex / Cartesian / axial chains: same global coordinates with and without the flag",
+                 case, observed=gn, expected=gc)
+    if has_trz:
+        anc = next(n for n, l in enumerate(chain) if isinstance(l.grid, grids.ThetaRZGrid))
+        ctx.count("native global coordinates through a theta-R-Z grid %d level(s) above the locator" % min(anc, 3))
 
 
 def adding_truth_table(ctx, case, loc, parent, ci, own, exact):
@@ -756,6 +807,10 @@ def run_nesting_kinds(ctx):
     allkinds = sorted(set(NEST_KINDS))
     directed = [[a, b] for a in allkinds for b in allkinds]                       # every (parent kind, child kind) pair
     directed += [[r, a, b] for r in ("hexF", "hexC", "cart", "cartO", "trz") for a in AXIAL_KINDS for b in AXIAL_KINDS]
+    # a theta-R-Z grid two and three levels above the locator (blocks of an assembly in a theta-R-Z core, pins in them)
+    directed += [["trz", a, b] for a in ("hexF", "cartO", "trz", "mixed") for b in ("axialB", "hexC", "cart", "trz")]
+    directed += [["trz", a, "axialB", b] for a in ("hexF", "cart", "axialS") for b in ("hexF", "cartO", "axialB")]
+    directed += [[a, "trz", "axialB"] for a in ("hexC", "cart", "axialB")]
     for t in range(n + len(directed)):
         if t < len(directed):
             kinds = list(directed[t])
@@ -818,7 +873,7 @@ def run_nesting_kinds(ctx):
     ctx.compare("Model/Grid.lean completeIndices/addingIsValid (all kinds) vs locations.py", [e[2] for e in exact], me,
                 [e[1] for e in exact])
     ctx.evaluations += len(model)
-    ctx.count("nesting chains (all kinds)", len(req) // 3)
+    ctx.count("nesting chains (all kinds)", len(req) // 4)
 
 
 def run_nesting(ctx):
@@ -868,7 +923,7 @@ def run_nesting(ctx):
             ctx.disagree("Model/Grid.lean nesting vs IndexLocation", c, line, v)
     ctx.compare("Model/Grid.lean completeIndices vs getCompleteIndices", [e[2] for e in exact], me, [e[1] for e in exact])
     ctx.evaluations += len(model)
-    ctx.count("nesting chains", len(req) // 3)
+    ctx.count("nesting chains", len(req) // 4)
     ctx.samples.append({"request": req[0][:300], "model": mv[0], "impl": impl_vals[0]})
 
 
@@ -1129,7 +1184,6 @@ def run_labels(ctx):
                                                      for c in vals[:13:2] + [-1]]
     tuples += [tuple(rng.choice(vals + [rng.randint(-2000, 20000)]) for _ in range(rng.choice([2, 3]))) for _ in range(ctx.pick(300, 3000))]
     labels = set()
-    nneg = 0
     for ix in tuples:
         lab = cart.getLabel(ix)                 # Grid.getLabel (static; CartesianGrid does not override it)
         req.append(f"getlabel {ints(ix)}"); impl.append("L" + lab); cases.append(("getlabel", ix))
@@ -1142,14 +1196,13 @@ def run_labels(ctx):
                 ctx.fail("label-roundtrip", "locatorLabelToIndices(getLabel(indices)) == indices (third entry None for two "
                          "indices), for indices of any size", {"indices": list(ix), "label": lab}, observed=back, expected=want)
         else:
-            ctx.count("labels with a negative index (excluded-point stream)")
-            nneg += 1
-            if back != want and nneg <= 6:
+            ctx.count("labels with a negative index")
+            if back != want:
+                # repaired in /repo by 9ee1acd: the key must never fire again
                 ctx.fail("label-roundtrip-negative-index", "locatorLabelToIndices(getLabel(indices)) == indices for a cell with "
                          "a negative index (Cartesian cells left of / below the centre, negative axial index)",
                          {"indices": list(ix), "label": lab, "grid": "CartesianGrid.fromRectangle(1, 1, numRings=3)"},
-                         observed="ValueError" if back is None else back, expected=want,
-                         note="f'{-1:03d}' is '-01'; '-01-002'.split('-') starts with an empty piece that int() refuses")
+                         observed="ValueError" if back is None else back, expected=want)
         ctx.case(("label", ix))
     # hex labels are (ring, pos[, k]): far cells give ring / pos >= 100 and >= 1000
     hexg = grids.HexGrid.fromPitch(1.0, numRings=0)
@@ -1249,7 +1302,7 @@ def run_locators(ctx):
                         if not (viaLabel == loc):
                             ctx.fail("locator-label-roundtrip", "label -> (ring, pos, k) -> locator is the locator the label "
                                      "was made from", case, observed=[lab, (viaLabel.i, viaLabel.j, viaLabel.k)])
-                elif i >= 0 and j >= 0:
+                else:
                     lab = g.getLabel((i, j, k))
                     viaLabel = g[tuple(grids.locatorLabelToIndices(lab))]
                     if not (viaLabel == loc):
